@@ -105,7 +105,7 @@ def type_cells():
 
 
 def search(skip_known=True):
-    hit = submodule_cases() or extends_cases() or same_name_cases()
+    hit = submodule_cases() or extends_cases() or same_name_cases() or binding_attribute_case()
     if hit:
         return hit
     for cell in cells():
@@ -209,6 +209,23 @@ def same_name_cases():
     if got != want or got2 != want2:
         return {"confirmed": True, "input": {"source": text if got != want else text2}, "actual": got if got != want else got2, "expected": want if got != want else want2,
                 "how": "real parser: accessibility of the entities that share the name an access statement lists; generic identifiers spelt in upper / mixed case with blanks"}
+    return None
+
+
+def binding_attribute_case():
+    """an access attribute of a type-bound PROCEDURE / GENERIC statement counts in any letter case and next to other attributes"""
+    text = ("module m\n  implicit none\n  type :: t\n    integer :: c\n  contains\n    PROCEDURE, PRIVATE :: p1\n    procedure, pass(self), Private :: p2\n    procedure :: p3\n    GENERIC, PRIVATE :: g => p3\n  end type t\n"
+            "  type :: u\n    integer :: c\n  contains\n    private\n    PROCEDURE, PUBLIC :: q1\n    procedure :: q2\n    Generic, Public :: h => q2\n  end type u\ncontains\n"
+            "  subroutine p1(self)\n    class(t) :: self\n  end subroutine p1\n  subroutine p2(self)\n    class(t) :: self\n  end subroutine p2\n  subroutine p3(self)\n    class(t) :: self\n  end subroutine p3\n"
+            "  subroutine q1(self)\n    class(u) :: self\n  end subroutine q1\n  subroutine q2(self)\n    class(u) :: self\n  end subroutine q2\nend module m\n")
+    m = realrun.parse_source(text).modules[0]
+    got = {f"{ty.name}%{bp.name}": bp.permission for ty in m.types for bp in ty.boundprocs}
+    want = {"t%p1": "private", "t%p2": "private", "t%p3": "public", "t%g": "private", "u%q1": "public", "u%q2": "private", "u%h": "public"}
+    junk = {f"{ty.name}%{bp.name}": [a for a in bp.attribs if a.lower() in ("public", "private")] for ty in m.types for bp in ty.boundprocs}
+    junk = {k: v for k, v in junk.items() if v}
+    if got != want or junk:
+        return {"confirmed": True, "input": {"source": text}, "actual": {"accessibility": got, "access keywords left among the attributes": junk}, "expected": {"accessibility": want, "access keywords left among the attributes": {}},
+                "how": "real parser: accessibility of type-bound procedures whose access attribute is written in upper / mixed case"}
     return None
 
 
